@@ -24,8 +24,9 @@ package clusters
 //@ const curPolicies = (typeis(c.currentDispatchPolicies.v, "[]proxyv1alpha1.DispatchPolicy") ? unbox(c.currentDispatchPolicies.v, "[]proxyv1alpha1.DispatchPolicy") : emptyseq("proxyv1alpha1.DispatchPolicy"))
 //@ const picked = unbox(result, "*endpointPickStrategy")
 
-//@ func (*ClusterInfo).MatchAttributes props C01, C03
+//@ func (*ClusterInfo).MatchAttributes props C01, C03, C05
 //@   modifies nothing
+//@   ensures [limiter_of_policy] result1 == nil ==> (forall k int :: {old(curPolicies)[k]} 0 <= k && k < len(old(curPolicies)) && policyMatch(old(curPolicies)[k], requestAttributes) && (forall j int :: {old(curPolicies)[j]} 0 <= j && j < k ==> !policyMatch(old(curPolicies)[j], requestAttributes)) ==> picked.flowControl == limiterFor(old(c.flowcontrol), old(curPolicies)[k].FlowControlSchemaName))
 //@   ensures [no_match_err] result1 != nil <==> (forall i int :: {old(curPolicies)[i]} 0 <= i && i < len(old(curPolicies)) ==> !policyMatch(old(curPolicies)[i], requestAttributes))
 //@   ensures [no_match_val] result1 != nil ==> result1 == ErrNoRouterRuleMatches && result == nil
 //@   ensures [first_policy] result1 == nil ==> typeis(result, "*endpointPickStrategy") && exists k int :: {old(curPolicies)[k]} 0 <= k && k < len(old(curPolicies)) && policyMatch(old(curPolicies)[k], requestAttributes) && (forall j int :: {old(curPolicies)[j]} 0 <= j && j < k ==> !policyMatch(old(curPolicies)[j], requestAttributes)) && picked.cluster == c && picked.flowControlName == (len(old(curPolicies)[k].FlowControlSchemaName) == 0 ? "system-default" : old(curPolicies)[k].FlowControlSchemaName) && (len(old(curPolicies)[k].UpstreamSubset) != 0 ==> picked.upstreams == old(curPolicies)[k].UpstreamSubset)
